@@ -456,8 +456,15 @@ RasterSessionStep(k, rec) ==
   /\ OkKind(k, rec, "C13")
   /\ Require(\A i \in DOMAIN rec.renders : rec.renders[i][3] = 1, k, rec, "C14", "a rendering depends on earlier renderings or on the order of setter calls and renderings of its builder, not on the final options alone")
 
+\* soak: the n-th build of a builder and the n-th rendering of a code equal the first ones, for every n of a long run
+HSoakStep(k, rec) ==
+  /\ Require(rec.kind = "Ok", k, rec, "C10", rec.kind)
+  /\ Require(rec.kind # "Ok" \/ rec.same_build = rec.calls, k, rec, "C14", "a later build of the same input and options differs from the first one (how often a builder or the process has been used matters)")
+  /\ Require(rec.kind # "Ok" \/ rec.same_render = rec.calls, k, rec, "C14", "a later rendering of the same QR code with the same options differs from the first one")
+
 StepOf(k, rec, ly, s) ==
-  CASE rec.ev = "RasterSession" -> (IF RasterSessionStep(k, rec) THEN s ELSE s)
+  CASE rec.ev = "HSoak" -> (IF HSoakStep(k, rec) THEN s ELSE s)
+    [] rec.ev = "RasterSession" -> (IF RasterSessionStep(k, rec) THEN s ELSE s)
     [] rec.ev = "SvgCallback" -> (IF CallbackStep(k, rec) THEN s ELSE s)
     [] rec.ev = "ApiContracts" -> (IF ApiContractsStep(k, rec) THEN s ELSE s)
     [] rec.ev = "ConvColor" -> (IF ConvColorStep(k, rec) THEN s ELSE s)
